@@ -690,7 +690,7 @@ class Weaver:
         st = self.st
         # identify the closure by the name of its first parameter when both the header and the source
         # give one (robust against closures added / removed before it); otherwise by ordinal
-        hm = re.match(r"\s*\|\s*(?:mut\s+)?([A-Za-z][A-Za-z0-9_]*)\b", header)
+        hm = re.match(r"\s*\|\s*(?:mut\s+)?(?:r#)?([A-Za-z][A-Za-z0-9_]*)\b", header)
         def first_name(c):
             a = c[0] + 1
             if st[a].k == "id" and st[a].s == "mut": a += 1
